@@ -26,7 +26,7 @@ pub fn run(reg: &dyn Registry, ctx: &Ctx) -> Outcome {
     let thorough = ctx.tier == Tier::Thorough;
     let depth = ctx.tier.pick(2, 3);
     let types: Vec<&'static dyn GenType> = reg.types().into_iter().filter(|t| t.info().has_serde).collect();
-    ctx.assume("bincode 1.3.3 is the snapshot format; the harness builds the crates with their `serde` feature");
+    ctx.assume("snapshot formats: bincode 1.3.3 (compact, not self-describing) and serde_json (human-readable, self-describing); the harness builds the crates with their `serde` feature");
     let _: Vec<()> = types
         .par_iter()
         .map(|ty| {
@@ -89,6 +89,107 @@ pub fn run(reg: &dyn Registry, ctx: &Ctx) -> Outcome {
                     if oo != of {
                         ctx.violation(&key("original-disturbed"), &format!("{}: serialising after {} disturbed the original (continuation {})", info.name, ops_short(&s.history), ops_short(cont)), rep(json!({"continuation": ops_json(cont)})));
                         break;
+                    }
+                }
+                // Deserialize::deserialize_in_place: the snapshot restored *into* an existing generator (a fresh
+                // one and one in another state)
+                for (tname, mut target) in [("a fresh generator", makers[s.maker].make()), ("a generator in another state", materialise(&makers, &states[(si + 1) % states.len()]))] {
+                    match guarded(|| target.de_in_place(&bytes)) {
+                        Ok(Some(Ok(()))) => {
+                            ctx.add("in_place_restores", 1);
+                            if info.has_eq && target.eq_dyn(g.as_ref()) != Some(true) {
+                                ctx.violation(&key("in-place-restored-not-equal"), &format!("{}: {} overwritten by deserialize_in_place with the snapshot after {} does not compare equal to the original", info.name, tname, ops_short(&s.history)), rep(json!({"in_place_target": tname})));
+                                break;
+                            }
+                            let cont = &conts[(si + 2) % conts.len()];
+                            let mut fresh = materialise(&makers, s);
+                            let of: Vec<Obs> = cont.iter().map(|o| apply(&mut fresh, o)).collect();
+                            let ot: Vec<Obs> = cont.iter().map(|o| apply(&mut target, o)).collect();
+                            ctx.add("transitions", 2 * cont.len() as u64);
+                            if of != ot {
+                                ctx.violation(&key("in-place-restored-diverges"), &format!("{}: {} overwritten by deserialize_in_place with the snapshot after {}: under {} it returns {:?}, the original {:?}", info.name, tname, ops_short(&s.history), ops_short(cont), ot.iter().map(|o| o.to_json()).collect::<Vec<_>>(), of.iter().map(|o| o.to_json()).collect::<Vec<_>>()), rep(json!({"in_place_target": tname, "continuation": ops_json(cont)})));
+                                break;
+                            }
+                        }
+                        Ok(Some(Err(e))) => {
+                            ctx.violation(&key("in-place-roundtrip"), &format!("{}: deserialize_in_place of the snapshot after {} into {} failed: {}", info.name, ops_short(&s.history), tname, e), rep(json!({"in_place_target": tname})));
+                            break;
+                        }
+                        Ok(None) => break,
+                        Err(o) => {
+                            ctx.violation(&key("in-place-roundtrip"), &format!("{}: deserialize_in_place of the snapshot after {} into {} panicked: {:?}", info.name, ops_short(&s.history), tname, o), rep(json!({"in_place_target": tname})));
+                            break;
+                        }
+                    }
+                }
+                // two snapshots in one stream (this state, then the next state of the set): each must come back
+                // as itself (a deserializer that reads too little or too much)
+                if si % 3 == 0 {
+                    let other = materialise(&makers, &states[(si + 1) % states.len()]);
+                    if let Some(ob) = other.ser() {
+                        let mut both = bytes.clone();
+                        both.extend_from_slice(&ob);
+                        match guarded(|| ty.de_two(&both)) {
+                            Ok(Some(Ok((mut r1, mut r2)))) => {
+                                ctx.add("snapshot_pairs_in_one_stream", 1);
+                                let cont = &conts[si % conts.len()];
+                                let mut f1 = materialise(&makers, s);
+                                let mut f2 = materialise(&makers, &states[(si + 1) % states.len()]);
+                                let same = cont.iter().all(|o| apply(&mut f1, o) == apply(&mut r1, o)) && cont.iter().all(|o| apply(&mut f2, o) == apply(&mut r2, o));
+                                if !same {
+                                    ctx.violation(&key("stream-of-two-diverges"), &format!("{}: the snapshots after {} and after {} written one after the other and read back from one stream do not both restore their generator", info.name, ops_short(&s.history), ops_short(&states[(si + 1) % states.len()].history)), rep(json!({"second_ops": ops_json(&states[(si + 1) % states.len()].history)})));
+                                }
+                            }
+                            Ok(Some(Err(e))) => ctx.violation(&key("stream-of-two-roundtrip"), &format!("{}: the snapshots after {} and after {} written one after the other cannot be read back from one stream: {}", info.name, ops_short(&s.history), ops_short(&states[(si + 1) % states.len()].history), e), rep(json!({"second_ops": ops_json(&states[(si + 1) % states.len()].history)}))),
+                            Ok(None) => {}
+                            Err(o) => ctx.violation(&key("stream-of-two-roundtrip"), &format!("{}: reading two snapshots from one stream panicked: {:?}", info.name, o), rep(json!(null))),
+                        }
+                    }
+                }
+                // second generation: a snapshot of the generator that was itself restored from a snapshot
+                {
+                    let (_, r1) = roundtrip(*ty, g.as_ref()).unwrap();
+                    match roundtrip(*ty, r1.as_ref()) {
+                        Ok((_, mut r2)) => {
+                            let cont = &conts[(si + 1) % conts.len()];
+                            let mut fresh = materialise(&makers, s);
+                            let of: Vec<Obs> = cont.iter().map(|o| apply(&mut fresh, o)).collect();
+                            let o2: Vec<Obs> = cont.iter().map(|o| apply(&mut r2, o)).collect();
+                            ctx.add("transitions", 2 * cont.len() as u64);
+                            ctx.add("second_generation_snapshots", 1);
+                            if of != o2 {
+                                ctx.violation(&key("second-generation-diverges"), &format!("{}: snapshot after {}, restored, snapshotted again and restored: under {} it returns {:?}, the original {:?}", info.name, ops_short(&s.history), ops_short(cont), o2.iter().map(|o| o.to_json()).collect::<Vec<_>>(), of.iter().map(|o| o.to_json()).collect::<Vec<_>>()), rep(json!({"generations": 2, "continuation": ops_json(cont)})));
+                            }
+                        }
+                        Err(e) => ctx.violation(&key("second-generation-roundtrip"), &format!("{}: a generator restored from a snapshot after {} cannot be snapshotted and restored again: {}", info.name, ops_short(&s.history), e), rep(json!({"generations": 2}))),
+                    }
+                }
+                // the same snapshot through a human-readable, self-describing format (serde_json): a
+                // Serialize / Deserialize that branches on the format, or a value the text form cannot carry
+                if let Some(jb) = g.ser_json() {
+                    ctx.add("json_snapshots", 1);
+                    match guarded(|| ty.de_json(&jb)) {
+                        Ok(Some(Ok(mut rj))) => {
+                            if info.has_eq && rj.eq_dyn(g.as_ref()) != Some(true) {
+                                ctx.violation(&key("json-restored-not-equal"), &format!("{}: generator restored from a JSON snapshot after {} does not compare equal to the original", info.name, ops_short(&s.history)), rep(json!({"format":"json"})));
+                                continue;
+                            }
+                            let cont = &conts[si % conts.len()];
+                            let mut fresh = materialise(&makers, s);
+                            let of: Vec<Obs> = cont.iter().map(|o| apply(&mut fresh, o)).collect();
+                            let oj: Vec<Obs> = cont.iter().map(|o| apply(&mut rj, o)).collect();
+                            ctx.add("transitions", 2 * cont.len() as u64);
+                            if of != oj {
+                                ctx.violation(
+                                    &key("json-restored-diverges"),
+                                    &format!("{}: JSON snapshot after {}: under {} the restored generator returns {:?}, the original {:?}", info.name, ops_short(&s.history), ops_short(cont), oj.iter().map(|o| o.to_json()).collect::<Vec<_>>(), of.iter().map(|o| o.to_json()).collect::<Vec<_>>()),
+                                    rep(json!({"format":"json","continuation": ops_json(cont)})),
+                                );
+                            }
+                        }
+                        Ok(Some(Err(e))) => ctx.violation(&key("json-roundtrip"), &format!("{}: JSON snapshot after {} cannot be restored: {}", info.name, ops_short(&s.history), e), rep(json!({"format":"json"}))),
+                        Ok(None) => {}
+                        Err(o) => ctx.violation(&key("json-roundtrip"), &format!("{}: restoring a JSON snapshot after {} panicked: {:?}", info.name, ops_short(&s.history), o), rep(json!({"format":"json"}))),
                     }
                 }
             }
@@ -280,6 +381,60 @@ pub fn run(reg: &dyn Registry, ctx: &Ctx) -> Outcome {
             ctx.violation(&format!("C11:{}:rare-event", info.name), &r.0, r.1);
         }
     }
+    // ---- the public block cores: plain, in-place and JSON restores ---------------------------------
+    for core in reg.core_types().into_iter().filter(|c| c.info().has_serde) {
+        let info = core.info();
+        for (si, seed) in standard_seeds(core, ctx.seed).into_iter().enumerate() {
+            for blocks in [0usize, 1, 2, 5] {
+                let build = |extra: usize| {
+                    let mut g = core.from_seed(&seed);
+                    for _ in 0..blocks + extra {
+                        g.next_u32();
+                    }
+                    g
+                };
+                let g = build(0);
+                let rep = json!({"kind":"note","type":info.name,"seed":crate::evidence::hex(&seed),"blocks_generated":blocks});
+                let Some(bytes) = g.ser() else { continue };
+                ctx.add("core_snapshots", 1);
+                let want: Vec<u32> = {
+                    let mut f = build(0);
+                    (0..3).map(|_| f.next_u32()).collect()
+                };
+                let mut candidates: Vec<(&str, Box<dyn Gen>)> = Vec::new();
+                if let Some(Ok(r)) = core.de(&bytes) {
+                    candidates.push(("deserialize", r));
+                } else {
+                    ctx.violation(&format!("C11:{}:roundtrip", info.name), &format!("{}: snapshot after {} blocks cannot be restored", info.name, blocks), rep.clone());
+                }
+                for (tname, mut target) in [("deserialize_in_place into a fresh core", core.from_seed(&standard_seeds(core, ctx.seed)[(si + 1) % 3])), ("deserialize_in_place into a core in another state", build(2))] {
+                    match guarded(|| target.de_in_place(&bytes)) {
+                        Ok(Some(Ok(()))) => candidates.push((tname, target)),
+                        Ok(None) => {}
+                        other => ctx.violation(&format!("C11:{}:in-place-roundtrip", info.name), &format!("{}: {} of the snapshot after {} blocks failed: {:?}", info.name, tname, blocks, other.map(|o| o.map(|r| r.err()))), rep.clone()),
+                    }
+                }
+                if let Some(jb) = g.ser_json() {
+                    match core.de_json(&jb) {
+                        Some(Ok(r)) => candidates.push(("JSON restore", r)),
+                        Some(Err(e)) => ctx.violation(&format!("C11:{}:json-roundtrip", info.name), &format!("{}: JSON snapshot after {} blocks cannot be restored: {}", info.name, blocks, e), rep.clone()),
+                        None => {}
+                    }
+                }
+                for (how, mut r) in candidates {
+                    if r.eq_dyn(g.as_ref()) != Some(true) {
+                        ctx.violation(&format!("C11:{}:restored-not-equal", info.name), &format!("{}: the core restored ({}) from the snapshot after {} blocks does not compare equal to the original", info.name, how, blocks), rep.clone());
+                        continue;
+                    }
+                    let got: Vec<u32> = (0..3).map(|_| r.next_u32()).collect();
+                    ctx.add("transitions", 6);
+                    if got != want {
+                        ctx.violation(&format!("C11:{}:restored-diverges", info.name), &format!("{}: the core restored ({}) from the snapshot after {} blocks generates blocks starting with {:x?}, the original {:x?}", info.name, how, blocks, got, want), rep.clone());
+                    }
+                }
+            }
+        }
+    }
     // ---- generators restored from edited images ------------------------------------------------
     // A generator G' = deserialize(edited image) is a serializable generator like any other (whatever the
     // deserializer made of the bytes), so the property applies to it: deserialize(serialize(G')) must
@@ -331,7 +486,7 @@ pub fn run(reg: &dyn Registry, ctx: &Ctx) -> Outcome {
                         let Ok(Some(Ok(mut gp))) = guarded(|| ty.de(&im)) else { continue };
                         let Ok(Some(Ok(mut twin))) = guarded(|| ty.de(&im)) else { continue };
                         ctx.add("edited_image_generators", 1);
-                        let rep = || json!({"kind":"note","type":info.name,"maker":mk.describe(),"ops":ops_json(h),"edited_image":crate::evidence::hex(&im[..im.len().min(96)]),"image_len":im.len()});
+                        let rep = || json!({"kind":"edited-image","type":info.name,"maker":mk.describe(),"ops":ops_json(h),"image":crate::evidence::hex(&im)});
                         let first_diff = im.iter().zip(img.iter()).position(|(a, b)| a != b).unwrap_or(0);
                         let r = match roundtrip(*ty, gp.as_ref()) {
                             Ok((_, r)) => r,
